@@ -109,6 +109,8 @@ package cache
 //@   loop 1 invariant forall(k, string, visited(1, k) && has(c.items, k) && hasTag(ent(c.items[k]), tag) ==> exists(j, 0, len(toRemove), toRemove[j] == c.items[k]))
 //@   loop 1 invariant forall(j, 0, len(toRemove), hasTag(ent(toRemove[j]), tag))
 //@   loop 2 invariant forall(i, 0, rangeidx, entry.Tags[i] != tag)
+// (intermediate step for the distinctness invariant: the element about to be collected was not collected before - its key had not been visited)
+//@   assertat "toRemove = append(toRemove, elem)" forall(j, 0, len(toRemove), toRemove[j] != elem)
 //@   loop 3 invariant forall(k, string, has(c.items, k) && hasTag(ent(c.items[k]), tag) ==> exists(j, rangeidx, len(toRemove), toRemove[j] == c.items[k]))
 //@   loop 3 invariant forall(k, string, atlock(has(c.items, k)) && !has(c.items, k) ==> hasTag(ent(atlock(c.items[k])), tag))
 //@   loop 3 invariant forall(j, 0, len(toRemove), hasTag(ent(toRemove[j]), tag))
